@@ -6,6 +6,7 @@ every public call) + an integer-seconds reference model compared after every ope
 from __future__ import annotations
 
 import datetime
+import re
 import itertools
 from pathlib import Path
 from typing import Any
@@ -23,7 +24,7 @@ LEVEL_NOTE = "Trusts numpy datetime64 arithmetic for decoding results and icontr
 RULE = ("case = chunk of (start, stop, dt, reference, direction) combinations; thorough adds the exhaustive lattice start,stop in 0..40 s, dt in 1..7 s, "
         "reference in {none, start-5, start+3}; every combination is stepped Nsteps+2 times and probed at steps -5..Nsteps+5. Non-trivial: Nsteps >= 1; "
         "distinct by (duration, dt, direction, reference offset).")
-MANDATORY = ["naive_datetime_under_a_non_UTC_time_zone", "warm_start_from_a_file_with_the_time_axis_in_other_units", "reference_time_1970-01-01", "requested_reference_time_compared_with_the_file", "warm_start_clock_checked", "zero_period_spellings", "reference_time_decades_before_the_run", "output_period_not_a_whole_number_of_steps", "output_file_time_values_checked", "forward", "reversed", "dt_not_dividing", "explicit_reference", "negative_steps_probed", "invariant_evaluations",
+MANDATORY = ["duration2iso_of_a_day_or_more", "times_given_as_aware_datetimes_with_a_utc_offset", "naive_datetime_under_a_non_UTC_time_zone", "warm_start_from_a_file_with_the_time_axis_in_other_units", "reference_time_1970-01-01", "requested_reference_time_compared_with_the_file", "warm_start_clock_checked", "zero_period_spellings", "reference_time_decades_before_the_run", "output_period_not_a_whole_number_of_steps", "output_file_time_values_checked", "forward", "reversed", "dt_not_dividing", "explicit_reference", "negative_steps_probed", "invariant_evaluations",
              "period_spellings_compared", "malformed_rejected", "resets_checked", "positioned_clock_updates"]
 ASSUMPTIONS = ["step2nctime is exercised with the documented units s, m, h only",
                "negative periods and a trailing newline are accepted by normalize_period and are not called malformed by the property"]
@@ -108,9 +109,21 @@ def _check_combo0(tk, S: int, E: int, d: int, R: int | None, dtspell: Any, V: li
     kw: dict[str, Any] = dict(start=str(start), stop=str(stop), dt=dtspell, time_reversal=rev)
     if R is not None:
         kw["reference"] = str(EPOCH + np.timedelta64(R, "s"))
-    desc = dict(start=str(start), stop=str(stop), dt=d, reference=kw.get("reference"), reversed=rev)
+    if (S + E + d) % 9 == 0:
+        # start, stop (and reference) given as time-zone aware datetimes (what an unquoted `2000-01-02 05:00:00+02:00` in a YAML or TOML file becomes):
+        # the instants are the same ones
+        tz_ = datetime.timezone(datetime.timedelta(hours=[2, -5, 5][(S + E) % 3], minutes=[0, 0, 30][(S + E) % 3]))
+        for k_ in ("start", "stop", "reference"):
+            if k_ in kw:
+                kw[k_] = datetime.datetime.fromisoformat(kw[k_] + "+00:00").astimezone(tz_)
+        sit["times_given_as_aware_datetimes_with_a_utc_offset"] = sit.get("times_given_as_aware_datetimes_with_a_utc_offset", 0) + 1
+    desc = dict(start=str(start), stop=str(stop), dt=d, reference=str(kw.get("reference")), reversed=rev)
     try:
-        t = tk.TimeKeeper(**kw)
+        import warnings as _warnings  # noqa: PLC0415
+
+        with _warnings.catch_warnings():
+            _warnings.simplefilter("ignore")
+            t = tk.TimeKeeper(**kw)
     except InvariantBroken as e:
         V.append(C.viol("running clock != step2time(step) right after construction", combo=desc, err=str(e)[:200]))
         return
@@ -273,6 +286,18 @@ def _periods(case, V, sit, cnt, keys):
                 if got / one != 0:
                     V.append(C.viol(f"normalize_period({sp!r}) = {got!r}, the duration is 0 s"))
             continue
+        # the spelling ladim itself writes for a duration (log lines): read with an independent ISO 8601 reader it is the same duration, also beyond a day
+        from ladim.timekeeper import duration2iso  # noqa: PLC0415
+
+        for td_ in (np.timedelta64(total, "s"), datetime.timedelta(seconds=total)):
+            txt = duration2iso(td_)
+            mm = re.fullmatch(r"P(?:(\d+)D)?(?:T(?:(\d+)H)?(?:(\d+)M)?(?:(\d+(?:\.\d+)?)S)?)?", str(txt))
+            back = None if (mm is None or str(txt) in ("P", "PT")) else 86400 * int(mm.group(1) or 0) + 3600 * int(mm.group(2) or 0) + 60 * int(mm.group(3) or 0) + float(mm.group(4) or 0)
+            sit["duration2iso_read_back"] = sit.get("duration2iso_read_back", 0) + 1
+            if total >= 86400:
+                sit["duration2iso_of_a_day_or_more"] = sit.get("duration2iso_of_a_day_or_more", 0) + 1
+            if back is None or back != total:
+                V.append(C.viol(f"duration2iso({td_!r}) = {txt!r}, which reads as {back} s; the duration is {total} s"))
         spellings: list[Any] = [total, np.timedelta64(total, "s"), datetime.timedelta(seconds=total), [total, "s"], f"PT{total}S"]
         iso = "PT" + (f"{h}H" if h else "") + (f"{m}M" if m else "") + (f"{s}S" if s else "")
         spellings.append(iso)
